@@ -20,9 +20,10 @@ for lst, out in zip(sys.argv[1::2], sys.argv[2::2]):
         res = results.get(d)
         if not res:
             continue
-        owner = re.search(r"mut-(C\d\d)", d).group(1)
+        m2 = re.search(r"mut(2?)-(C\d\d)", d)
+        owner = m2.group(2)
         k = os.path.basename(d)
-        sid = "%s-%s" % (owner, k)
+        sid = "%s-%s%s" % (owner, "w2-" if m2.group(1) else "", k)
         ok = ("build=ok" in res and "suite=pass" in res and "demo_with_change=fail" in res and "demo_without_change=pass" in res)
         if not ok:
             print("SKIP (not confirmed):", sid, res[:120])
